@@ -499,86 +499,3 @@ func TestComputeActivityPublishBackoff(t *testing.T) {
 	backoff = computeActivityPublishBackoff(backoff)
 	require.Equal(t, 10*time.Second, backoff)
 }
-
-// Ensure the Raft index of the last published activity event survives a
-// restart from a snapshot that covers the PUBLISH_ACTIVITY entry which recorded
-// it, i.e. the activity stream resumes where it left off instead of from the
-// beginning of the Raft log.
-func TestActivityStreamResumeFromSnapshot(t *testing.T) {
-	defer cleanupStorage(t)
-
-	// Configure server.
-	s1Config := getTestConfig("a", true, 5050)
-	s1Config.ActivityStream.Enabled = true
-	s1Config.ActivityStream.PublishTimeout = time.Second
-	s1Config.ActivityStream.PublishAckPolicy = liftApi.AckPolicy_LEADER
-	s1 := runServerWithConfig(t, s1Config)
-	defer s1.Stop()
-
-	// Wait for server to elect itself leader.
-	getMetadataLeader(t, 10*time.Second, s1)
-
-	client, err := lift.Connect([]string{"localhost:5050"})
-	require.NoError(t, err)
-	defer client.Close()
-
-	// readEvents returns the ids of the first n events in the activity stream.
-	readEvents := func(n int) []uint64 {
-		msgs := make(chan *lift.Message, 100)
-		ctx, cancel := context.WithCancel(context.Background())
-		defer cancel()
-		require.NoError(t, client.Subscribe(ctx, activityStream, func(msg *lift.Message, err error) {
-			if err == nil {
-				msgs <- msg
-			}
-		}, lift.StartAtEarliestReceived()))
-		ids := make([]uint64, 0, n)
-		for len(ids) < n {
-			select {
-			case msg := <-msgs:
-				var se liftApi.ActivityStreamEvent
-				require.NoError(t, proto.Unmarshal(msg.Value(), &se))
-				ids = append(ids, se.GetId())
-			case <-time.After(10 * time.Second):
-				stackFatalf(t, "Did not receive expected activity events: %v", ids)
-			}
-		}
-		return ids
-	}
-	waitForLastPublished := func(s *Server, index uint64) {
-		deadline := time.Now().Add(10 * time.Second)
-		for time.Now().Before(deadline) {
-			if s.activity.LastPublishedRaftIndex() == index {
-				return
-			}
-			time.Sleep(15 * time.Millisecond)
-		}
-		stackFatalf(t, "Last published Raft index is %d, expected %d",
-			s.activity.LastPublishedRaftIndex(), index)
-	}
-
-	// Create a stream and wait for its event to be recorded as published.
-	require.NoError(t, client.CreateStream(context.Background(), "foo", "foo"))
-	ids := readEvents(2)
-	published := ids[1]
-	waitForLastPublished(s1, published)
-
-	// Force a snapshot. It covers every PUBLISH_ACTIVITY entry.
-	future := s1.getRaft().Snapshot()
-	require.NoError(t, future.Error())
-
-	// Restart the server.
-	s1.Stop()
-	s1 = runServerWithConfig(t, s1.config)
-	defer s1.Stop()
-	getMetadataLeader(t, 10*time.Second, s1)
-
-	// The index was restored from the snapshot.
-	require.Equal(t, published, s1.activity.LastPublishedRaftIndex())
-
-	// Events published before the snapshot are not published again.
-	require.NoError(t, client.CreateStream(context.Background(), "bar", "bar"))
-	ids = readEvents(3)
-	require.True(t, ids[0] < ids[1] && ids[1] < ids[2], "activity events were redelivered: %v", ids)
-	waitForLastPublished(s1, ids[2])
-}
